@@ -299,6 +299,21 @@ def run_evobj(root, hexs):
         return "CRASH %s" % crash_name(e)
 
 
+def run_sevobj(hexs):
+    """events_to_objs applied to the events of an accepted strict stream decode: one object per message"""
+    from tpmstream.common.object import events_to_objs
+
+    data = b"" if hexs == "-" else bytes.fromhex(hexs)
+    try:
+        evs = list(Binary.marshal(tpm_type=CommandResponseStream, buffer=data, abort_on_error=True))
+    except Exception:  # noqa
+        return "None"
+    try:
+        return ";".join(show_obj(o) for o in events_to_objs(evs))
+    except Exception as e:  # noqa
+        return "CRASH"
+
+
 def run_intops(name, v, w):
     """C16: the typed value behaves as the plain integer (both operand orders)"""
     import operator as op
@@ -1038,6 +1053,8 @@ def handle(line):
         return run_objev(parts[2], parts[3])
     if parts[0] == "evobj":
         return run_evobj(parts[2], parts[3])
+    if parts[0] == "sevobj":
+        return run_sevobj(parts[2])
     if parts[0] == "int":
         return run_int(parts[2], parts[3])
     if parts[0] == "intops":
